@@ -3,8 +3,18 @@
     0xA8 and the sequences section; or a zero sequence count.  Plus the inverse direction used by the correspondence
     check: take a real block apart with the decoder model and write it again with this model. *)
 Require Import Zrs.lib.RsPrelude Zrs.gen.Generated Zrs.model.Headers Zrs.model.BitIO Zrs.model.FseDec Zrs.model.HufDec Zrs.model.BlockDec.
-Require Import Zrs.model.BitStream Zrs.model.SeqEnc Zrs.model.FseEnc Zrs.model.SeqSection.
+Require Import Zrs.model.BitStream Zrs.model.SeqEnc Zrs.model.FseEnc Zrs.model.SeqSection Zrs.model.Matcher.
 Open Scope Z_scope.
+
+(** what [compress_block] makes of the match finder's sequences: one literal buffer, and (literal length, match length,
+    offset + 3) per match -- the raw offset is always coded as a new offset (value above 3) *)
+Definition mseq_lits (s : mseq) : list Z := match s with MLit l => l | MTriple l _ _ => l end.
+Definition mseqs_lits (ms : list mseq) : list Z := concat (map mseq_lits ms).
+Definition mseqs_seqs (ms : list mseq) : list sequence :=
+  flat_map (fun s => match s with
+                     | MLit _ => []
+                     | MTriple l off ml => [{| sq_ll := zlen l; sq_ml := Z.of_nat ml; sq_of := Z.of_nat off + 3 |}]
+                     end) ms.
 
 Definition raw_lit_header (n : Z) : list Z := [12 + 16 * (n mod 16); (n / 16) mod 256; n / 4096].
 
@@ -28,6 +38,26 @@ Definition rewrite_raw_block (body : list Z) : res (bool * list Z) :=
     let* again := block_raw_lits lits (0, []) (0, []) (0, []) [] in ROk (true, again)
   else
     let* (s2, seqs) := decode_sequences nseq modes (drop_z used_seq raw2) fse_scratch_new in
+    let dl := dist_of (fs_ll s2) in let do := dist_of (fs_of s2) in let dm := dist_of (fs_ml s2) in
+    let* again := block_raw_lits lits dl do dm seqs in
+    ROk (section_hyps_b dl do dm seqs, again).
+
+(** the first block of a frame at level Fastest, from the data: the match finder model on [data], the literal buffer and
+    triples [compress_block] makes of its report, the distributions read out of the real block [body]; the result must
+    be [body] again (correspondence check) *)
+Definition fastest_first_block (window : nat) (data body : list Z) : res (bool * list Z) :=
+  let* d1 := commit_space (mgd_new window 1) data in
+  let* (ms, d2) := mgd_start d1 in
+  let lits := mseqs_lits ms in
+  let seqs := mseqs_seqs ms in
+  let* (used, ty, regen, comp, streams) := lit_header_parse body in
+  if negb (ty =? 0) then RErr "not raw literals" else
+  let raw2 := drop_z (used + regen) body in
+  let* (used_seq, nseq, modes) := sequences_header_parse 0 None raw2 in
+  if nseq =? 0 then
+    let* again := block_raw_lits lits (0, []) (0, []) (0, []) seqs in ROk (true, again)
+  else
+    let* (s2, _) := decode_sequences nseq modes (drop_z used_seq raw2) fse_scratch_new in
     let dl := dist_of (fs_ll s2) in let do := dist_of (fs_of s2) in let dm := dist_of (fs_ml s2) in
     let* again := block_raw_lits lits dl do dm seqs in
     ROk (section_hyps_b dl do dm seqs, again).
